@@ -489,7 +489,8 @@ def _r17_7(res, P, cfgname):
             if rv["k"] == "agg" and rv["ak"] == "adt" and rv["adt"] == UBIG:
                 ctx = ctx or ts.ctx(fn)
                 n += 1
-                ok, why = ts.operand(ctx, rv["ops"][0], ())
+                _r = ts.operand(ctx, rv["ops"][0], ())
+                ok, why = _r[0], _r[1]
                 mac = [m for m in mir.span_macros(s["sp"]) if not m.startswith("desugar")]
                 fam = mac[-1] if mac else "-"
                 key = "UBig(..) in %s [%s]" % (fn["p"], fam)
